@@ -63,22 +63,30 @@ Print Assumptions C18_frame.
 
 (** ** Every history of each provider model yields such a trace *)
 
-(** file system: all histories of file changes, notifications of any kind in any
-    order and initial loads — outside the guards of the open findings C18-F2
-    (ignored Rename) and C18-F4 (stale Remove); all histories for the repaired dispatch *)
+(** file system, the provider as it is now (fix: commit 07a625c, [fs_dispatch true]):
+    ALL histories of file changes, notifications of any kind in any order
+    (repeated, stale, out of order) and initial loads *)
 Theorem C18_fs_all_histories : forall O,
   (forall s, deletable O s = true) ->
-  forall fixed h, fixed = true \/ (fs_guard_F2 h = false /\ fs_guard_F4 h = false) ->
-  trace_ok (accepts O) (fs_trace O fixed h) = true.
-Proof. exact fs_trace_ok. Qed.
+  forall h, trace_ok (accepts O) (fs_trace O true h) = true.
+Proof. intros O Hdel h. apply fs_trace_ok; [exact Hdel | left; reflexivity]. Qed.
 Print Assumptions C18_fs_all_histories.
+
+(** the provider of the pinned commit ([fs_dispatch false]), outside the guards of
+    the findings C18-F2 (ignored Rename) and C18-F4 (stale Remove) it had *)
+Theorem C18_fs_all_histories_pinned : forall O,
+  (forall s, deletable O s = true) ->
+  forall h, fs_guard_F2 h = false -> fs_guard_F4 h = false ->
+  trace_ok (accepts O) (fs_trace O false h) = true.
+Proof. intros O Hdel h G2 G4. apply fs_trace_ok; [exact Hdel | right; split; assumption]. Qed.
+Print Assumptions C18_fs_all_histories_pinned.
 
 (** the invariant: the stored hash is (the hash of) the latest valid content seen *)
 Theorem C18_fs_stored_hash : forall O,
   (forall s, deletable O s = true) ->
-  forall fixed h f, fixed = true \/ (fs_guard_F2 h = false /\ fs_guard_F4 h = false) ->
-  fs_known (fst (fs_run O fixed h)) f = latest_valid (accepts O) (seen_of (fs_trace O fixed h) (Sid f)).
-Proof. exact fs_known_latest_valid. Qed.
+  forall h f,
+  fs_known (fst (fs_run O true h)) f = latest_valid (accepts O) (seen_of (fs_trace O true h) (Sid f)).
+Proof. intros O Hdel h f. apply fs_known_latest_valid; [exact Hdel | left; reflexivity]. Qed.
 Print Assumptions C18_fs_stored_hash.
 
 (** HTTP endpoint: all sequences of polls and fetch outcomes *)
@@ -108,15 +116,26 @@ Theorem C18_http_active_is_stored_hash : forall O h e,
 Proof. exact http_active_is_known. Qed.
 Print Assumptions C18_http_active_is_stored_hash.
 
-(** fairness: after the last change of file [f] (history [h1], then [f] now holds
-    [w], then [h2] without a change of [f]), if [h2] contains at least one
-    notification that makes the provider look at [f] — and, for the unrepaired
-    dispatch, no Remove for [f] processed while [f] exists with content (C18-F4) —
-    then what is loaded from [f] is [target w previous]: [w] itself if valid and
+(** fairness, the provider as it is now: after the last change of file [f]
+    (history [h1], then [f] now holds [w], then [h2] without a change of [f]), if
+    [h2] contains at least one notification for [f] — of whatever kind — then
+    what is loaded from [f] is [target w previous]: [w] itself if valid and
     accepted, nothing if [f] is gone or empty, the previously loaded version if [w]
     is invalid or rejected.  [h1], [h2] are arbitrary otherwise (other files,
-    repeated / stale / ignored notifications, initial loads). *)
-Theorem C18_fs_converges_world : forall O fixed h1 f w h2,
+    repeated / stale / out-of-order notifications, initial loads). *)
+Theorem C18_fs_converges_world : forall O h1 f w h2,
+  (forall s, deletable O s = true) ->
+  (forall g w', In (FsSet g w') h2 -> g <> f) ->
+  (exists ops, ops <> [] /\ In (FsNotify f ops) h2) ->
+  active_of (fs_trace O true (h1 ++ FsSet f w :: h2)) (Sid f)
+  = target O w (active_of (fs_trace O true h1) (Sid f)).
+Proof. exact fs_converges_world_fixed. Qed.
+Print Assumptions C18_fs_converges_world.
+
+(** the same for both dispatch variants; the pinned one needs a notification that
+    is not ignored ([rereads false]) and no Remove for [f] processed while [f]
+    exists with content ([stale_remove]) *)
+Theorem C18_fs_converges_world_pinned : forall O fixed h1 f w h2,
   (forall s, deletable O s = true) ->
   forallb (fun e => negb (is_set f e)) h2 = true ->
   existsb (rereads fixed f) h2 = true ->
@@ -124,31 +143,31 @@ Theorem C18_fs_converges_world : forall O fixed h1 f w h2,
   active_of (fs_trace O fixed (h1 ++ FsSet f w :: h2)) (Sid f)
   = target O w (active_of (fs_trace O fixed h1) (Sid f)).
 Proof. exact fs_converges_world. Qed.
-Print Assumptions C18_fs_converges_world.
+Print Assumptions C18_fs_converges_world_pinned.
 
-(** ** The open findings' witnesses, and non-vacuity *)
+(** ** The witnesses of the repaired findings (pinned behaviour), and non-vacuity *)
 
-Theorem C18_fs_F2_refuted :
+Theorem C18_fs_F2_pinned_refuted :
   exists h, fs_guard_F2 h = true /\ fs_guard_F4 h = false /\
             trace_ok (accepts O_all) (fs_trace O_all false h) <> true /\
             trace_ok (accepts O_all) (fs_trace O_all true h) = true /\
             world_step (world_step (world_step world0 (FsSet 0 (CValid 1))) (FsNotify 0 [OpCreate])) (FsSet 0 CAbsent) 0 = CAbsent /\
             active_of (fs_trace O_all false h) (Sid 0) = Some 1.
 Proof. exact fs_F2_refuted. Qed.
-Print Assumptions C18_fs_F2_refuted.
+Print Assumptions C18_fs_F2_pinned_refuted.
 
-Theorem C18_fs_F4_refuted :
+Theorem C18_fs_F4_pinned_refuted :
   exists h, fs_guard_F4 h = true /\ fs_guard_F2 h = false /\
             trace_ok (accepts O_all) (fs_trace O_all false h) <> true /\
             trace_ok (accepts O_all) (fs_trace O_all true h) = true /\
             active_of (fs_trace O_all false h) (Sid 0) = None /\
             active_of (fs_trace O_all true h) (Sid 0) = Some 1.
 Proof. exact fs_F4_refuted. Qed.
-Print Assumptions C18_fs_F4_refuted.
+Print Assumptions C18_fs_F4_pinned_refuted.
 
 Theorem C18_fs_nonvacuous :
   fs_guard_F2 h_nonvacuous = false /\ fs_guard_F4 h_nonvacuous = false /\
-  flat_map (fun st => filter p_ok (t_calls st)) (fs_trace O_rej3 false h_nonvacuous) =
+  flat_map (fun st => filter p_ok (t_calls st)) (fs_trace O_rej3 true h_nonvacuous) =
   [ {| p_kind := KCreated; p_src := Sid 0; p_cid := Some 1; p_ok := true |};
     {| p_kind := KUpdated; p_src := Sid 0; p_cid := Some 2; p_ok := true |};
     {| p_kind := KCreated; p_src := Sid 1; p_cid := Some 4; p_ok := true |};
@@ -159,36 +178,47 @@ Print Assumptions C18_fs_nonvacuous.
 
 (** ** Cloud blob *)
 
-(** all histories of polls (listings, single blobs, failures of every class) that
-    conform to the endpoints' configuration [md] ([None]: all blobs under the
-    prefix, [Some k]: the URL names blob [k]; listed keys distinct and below [nk]),
-    outside the guards of C18-F1 (a removal is reported, under the wrong source id;
-    not needed for the repaired provider), C18-F5 (a listing contains a blob that
-    cannot be loaded) and C18-F6 (the blob named by the URL is gone) *)
+(** the provider as it is now (fix: commit 9cefff4): all histories of polls
+    (listings, single blobs, failures of every class) that conform to the
+    endpoints' configuration [md] ([None]: all blobs under the prefix, [Some k]:
+    the URL names blob [k]; listed keys distinct and below [nk]), outside the
+    guards of the open findings C18-F5 (a listing contains a blob that cannot be
+    loaded) and C18-F6 (the blob named by the URL is gone) *)
 Theorem C18_blob_all_histories : forall O,
   (forall s, deletable O s = true) ->
-  forall nk fixed md h,
+  forall nk md h,
   forallb (conforms nk md) h = true ->
-  fixed = true \/ blob_guard_F1 nk h = false ->
   blob_guard_F5 (accepts O) h = false ->
   blob_guard_F6 h = false ->
-  trace_ok (accepts O) (blob_trace O nk fixed h) = true.
-Proof. exact blob_trace_ok. Qed.
+  trace_ok (accepts O) (blob_trace O nk true h) = true.
+Proof. intros O Hdel nk md h Hc G5 G6. apply (blob_trace_ok O Hdel nk true md); [exact Hc | left; reflexivity | exact G5 | exact G6]. Qed.
 Print Assumptions C18_blob_all_histories.
+
+(** the provider of the pinned commit, additionally outside the guard of C18-F1
+    (a removal is reported — under a source id nothing was created with) *)
+Theorem C18_blob_all_histories_pinned : forall O,
+  (forall s, deletable O s = true) ->
+  forall nk md h,
+  forallb (conforms nk md) h = true ->
+  blob_guard_F1 nk h = false ->
+  blob_guard_F5 (accepts O) h = false ->
+  blob_guard_F6 h = false ->
+  trace_ok (accepts O) (blob_trace O nk false h) = true.
+Proof. intros O Hdel nk md h Hc G1 G5 G6. apply (blob_trace_ok O Hdel nk false md); [exact Hc | right; exact G1 | exact G5 | exact G6]. Qed.
+Print Assumptions C18_blob_all_histories_pinned.
 
 Theorem C18_blob_stored_hash : forall O,
   (forall s, deletable O s = true) ->
-  forall nk fixed md h b k,
+  forall nk md h b k,
   forallb (conforms nk md) h = true ->
-  fixed = true \/ blob_guard_F1 nk h = false ->
   blob_guard_F5 (accepts O) h = false ->
   blob_guard_F6 h = false ->
-  fst (blob_run O fixed nk h) b k = latest_valid (accepts O) (seen_of (blob_trace O nk fixed h) (bkey b k)).
-Proof. exact blob_known_latest_valid. Qed.
+  fst (blob_run O true nk h) b k = latest_valid (accepts O) (seen_of (blob_trace O nk true h) (bkey b k)).
+Proof. intros O Hdel nk md h b k Hc G5 G6. apply (blob_known_latest_valid O Hdel nk true md); [exact Hc | left; reflexivity | exact G5 | exact G6]. Qed.
 Print Assumptions C18_blob_stored_hash.
 
 (** C18-F1: the removed blob k1 stays active although the provider forgot it *)
-Theorem C18_blob_F1_refuted :
+Theorem C18_blob_F1_pinned_refuted :
   exists h, blob_guard_F1 2 h = true /\ blob_guard_F5 (accepts O_all) h = false /\ blob_guard_F6 h = false /\
             forallb (conforms 2 (fun _ => None)) h = true /\
             trace_ok (accepts O_all) (blob_trace O_all 2 false h) <> true /\
@@ -196,7 +226,7 @@ Theorem C18_blob_F1_refuted :
             active_of (blob_trace O_all 2 false h) (bkey 0 1) = Some 2 /\
             fst (blob_run O_all false 2 h) 0 1 = None.
 Proof. exact blob_F1_refuted. Qed.
-Print Assumptions C18_blob_F1_refuted.
+Print Assumptions C18_blob_F1_pinned_refuted.
 
 (** C18-F5: k0 became invalid; k1's update and k2's removal are not applied *)
 Theorem C18_blob_F5_refuted :
